@@ -318,6 +318,16 @@ def run(ctx, chk, tier="quick"):
                             if cn is not None:
                                 body_nodes.add(cn)
                 body_writes = [w for w in wnodes if w in body_nodes]
+                # a try that encloses the whole `with sqlite3.connect(...)` block is outside the transaction:
+                # the exception leaves the with-block (rollback) before the handler runs
+                encloses_with = any(isinstance(x, ast.With) and any(isinstance(c, ast.Call) and _is_connect_call(f, c)
+                                    for it in x.items for c in ast.walk(it.context_expr))
+                                    for st in n.body for x in ast.walk(st))
+                if encloses_with:
+                    chk.ob("C20.O3", True, where_of(f, n), "try block encloses the whole connection block (handler runs after the rollback)",
+                           "no handler that completes normally around writes inside the transaction",
+                           key="%s|%s|try-outside-transaction|%s" % (f.module.relpath, f.qualname, name))
+                    continue
                 if not body_writes:
                     chk.ob("C20.O3", True, where_of(f, n), "try block without writes in its body",
                            "no handler that completes normally around writes",
